@@ -12,7 +12,7 @@ Model of `src/redis-shake/decode.go` (CmdDecode) from the decoded objects onward
                 as a labelled transition system whose runs are all interleavings of the goroutines
 
 JSON *text* (escaping, number printing) is Go's `encoding/json` and is not modelled: a line is the ordered
-list of (name, value) pairs handed to `json.Marshal`; `json.Marshal` fails exactly on a non-finite float.
+list of (name, value) pairs handed to `json.Marshal`; `json.Marshal` failed exactly on a non-finite float on the pinned tree (`toJsonPinned`); the repaired `toJson` cannot fail.
 -/
 namespace RSVerif.DecodeMode
 open RSVerif RSVerif.Spec.DecodeMode
@@ -90,10 +90,16 @@ abbrev Record := List (String × JVal)
 
 def ascii (s : String) : Bytes := s.toList.map fun c => UInt8.ofNat c.toNat
 
-/-- `json.Marshal` returns `UnsupportedValueError` iff some float field is ±Inf/NaN; then `toJson` calls
-    `log.PanicError` (= `os.Exit(1)`). `none` = that abort. -/
-def toJson (r : Record) : Option Record :=
+/-- The pinned `toJson`: `json.Marshal` returns `UnsupportedValueError` iff some float field is ±Inf/NaN; then `toJson`
+    calls `log.PanicError` (= `os.Exit(1)`). `none` = that abort (deviation D19, repaired). -/
+def toJsonPinned (r : Record) : Option Record :=
   if r.any (fun (_, v) => match v with | .float b => nonFinite b | _ => false) then none else some r
+
+/-- `toJson` as repaired: the score field has the type `zsetScore`, whose `MarshalJSON` writes a finite score as
+    `json.Marshal(float64)` does and the three non-finite ones as the strings "inf" / "-inf" / "nan" — `json.Marshal`
+    has nothing left to refuse. (A record is the list of fields before rendering; how the score is *spelled* in the JSON
+    text is below this model: the harness reads both spellings back into the bit pattern.) -/
+def toJson (r : Record) : Option Record := some r
 
 /-! ## decoderMain: one entry → one block -/
 
